@@ -96,6 +96,17 @@ def handle (e : Env) (op : String) (args : List String) (got : String) : Option 
             | none => false
           | _ => false
         some { model := got, spec := if okRoot then [got] else ["r=1 <a canonical square root of the operand>"] }
+    else if o == "crt" then
+      -- a cube root is returned exactly when one exists (always when 3 ∤ p − 1; else iff a^((p−1)/3) = 1, or a = 0)
+      let isCube : Bool := a == 0 || (p - 1) % 3 != 0 || powMod a ((p - 1) / 3) p == 1
+      if !isCube then cls "r=0"
+      else
+        let okRoot : Bool := match (got.splitOn " ") with
+          | ["r=1", v, _] => match parseHexNat v with
+            | some r => decide (r < p) && decide (r * r % p * r % p = a) && got == "r=1 " ++ fmtVal e r
+            | none => false
+          | _ => false
+        some { model := got, spec := if okRoot then [got] else ["r=1 <a canonical cube root of the operand>"] }
     else none
   | "fpe", [_, _, a, x] => do
     let a ← parseHexNat a
